@@ -551,7 +551,17 @@ def plan(prop, tier, seed, budget):
         )
     else:
         raise SystemExit('no plan for property %s' % prop)
+    # the fault dimension: the property's own clauses also hold when some of the library's allocation requests are refused
+    # (C16 decides what a refused request may do; here the container's own promises are judged under the same fault sets)
+    fh = FAULT_HARNESS.get(prop)
+    if fh:
+        P['jobs'] = list(P['jobs']) + [g7_jobs(fh, 250 if q else 4000, workers=2 if q else 4, pair_max=12)]
+        P['rule'] += (' Fault dimension: generated scripts are also re-run with every single library allocation request refused, every '
+                      'suffix refused and every pair (scripts of <= 12 requests), judged by this property\'s own clauses (an operation '
+                      'that fails in its documented way leaves the model unchanged).')
     return P
+
+FAULT_HARNESS = {'C03': 'hash', 'C04': 'hash', 'C19': 'hash', 'C05': 'mem', 'C08': 'map', 'C09': 'vector', 'C10': 'string', 'C14': 'array'}
 
 # ---------------------------------------------------------------- manifest data
 ENGINES = [
